@@ -352,12 +352,34 @@ class GridPoints:
     def _set_grid_points(self):
         if self._is_mesh_symmetry and self._has_mesh_symmetry():
             self._set_ir_qpoints(
-                self._rotations, is_time_reversal=self._is_time_reversal
+                self._get_rotations_keeping_shift(),
+                is_time_reversal=self._is_time_reversal,
             )
         else:
             self._set_ir_qpoints(
                 [np.eye(3, dtype="intc")], is_time_reversal=self._is_time_reversal
             )
+
+    def _get_rotations_keeping_shift(self):
+        """Return rotations that map the half-shifted grid onto itself.
+
+        A rotation whose reciprocal-space matrix moves the half-grid shift to
+        another one would send grid points to positions that are not on the
+        grid, and they must not be used to reduce the grid points.
+
+        """
+        if not np.any(self._is_shift):
+            return self._rotations
+        shift = np.array(self._is_shift, dtype="int64")
+        return np.array(
+            [
+                r
+                for r in self._rotations
+                if ((np.dot(np.transpose(r), shift) - shift) % 2 == 0).all()
+            ],
+            dtype="intc",
+            order="C",
+        )
 
     def _shift2boolean(self, q_mesh_shift, is_gamma_center=False, tolerance=1e-5):
         """Return bools of with or without half-shifts.
